@@ -7,6 +7,7 @@
 -/
 import EasyMl.Lemmas.Tensor
 import EasyMl.Lemmas.Mappings
+import EasyMl.Lemmas.ShapeIter
 
 namespace EasyMl.C01
 open EasyMl EasyMl.Spec
@@ -328,5 +329,109 @@ example :
       (a.set [1, 0, 2] 99).map (·.source.data) = some [0, 1, 2, 3, 4, 99, 6, 7, 8, 9, 10, 11] := by
   refine ⟨_, _, rfl, rfl, ?_⟩
   decide
+
+/-! ### further constructors: `from_fn`, `from_scalar` -/
+
+/-- `Tensor::from_fn(shape, producer)` is `Tensor::from(shape, data)` with `data` the producer
+    applied to every index tuple of the shape in row-major order (the `ShapeIterator` enumerates
+    exactly those: `shapeIndexes_eq_allIndexes`). -/
+theorem fromFn_eq_from (shape : Shape ν) (producer : List Nat → α) :
+    Tensor.fromFn shape producer =
+      Tensor.tryFrom shape ((allIndexes (shape.map (·.2))).map producer) := by
+  unfold Tensor.fromFn; rw [shapeIndexes_eq_allIndexes]
+
+/-- `from_fn` accepts exactly the valid shapes (unique names, lengths ≥ 1), and the element at
+    every in-bounds index tuple is the producer's value for that tuple. -/
+theorem fromFn_get (shape : Shape ν) (producer : List Nat → α) :
+    (¬ ValidShape shape → Tensor.fromFn shape producer = none) ∧
+    (ValidShape shape → ∃ t, Tensor.fromFn shape producer = some t ∧ t.shape = shape ∧
+      ∀ idx, inBounds (shape.map (·.2)) idx = true → t.get idx = some (producer idx)) := by
+  rw [fromFn_eq_from]
+  have hlen : ((allIndexes (shape.map (·.2))).map producer).length = elements shape := by
+    rw [List.length_map, allIndexes_length]; rfl
+  constructor
+  · intro hv
+    cases h : Tensor.tryFrom shape ((allIndexes (shape.map (·.2))).map producer) with
+    | none => rfl
+    | some t =>
+      obtain ⟨⟨_, h1, h2⟩, _⟩ := (tryFrom_eq_some_iff _ _ t).1 h
+      exact absurd ⟨h1, h2⟩ hv
+  · intro hv
+    have ht := (tryFrom_eq_some_iff shape ((allIndexes (shape.map (·.2))).map producer) _).2
+      ⟨⟨hlen, hv.1, hv.2⟩, rfl⟩
+    refine ⟨_, ht, rfl, fun idx hb => ?_⟩
+    have ho := offset_of_tryFrom shape _ _ ht idx (by simpa using inBounds_length _ _ hb)
+    unfold Tensor.get
+    rw [ho, hb]
+    simp only [if_true, List.getElem?_map, allIndexes_getElem?_ravel _ idx hb, Option.map_some]
+
+/-- `Tensor::from_scalar(v)` (and `From<T>`) is the 0-dimensional tensor `Tensor::from([], [v])`. -/
+theorem fromScalar_eq_from (v : α) :
+    Tensor.tryFrom ([] : Shape ν) [v] = some (Tensor.fromScalar v) := by
+  rfl
+
+example : ∃ t, Tensor.fromFn [("a", 2), ("b", 2)] (fun idx => idx) = some t ∧
+    t.data = [[0, 0], [0, 1], [1, 0], [1, 1]] := ⟨_, rfl, rfl⟩
+example : Tensor.fromFn [("a", 2), ("a", 2)] (fun idx => idx) = none := by decide
+example : Tensor.fromFn [("a", 0)] (fun idx => idx) = none := by decide
+
+/-! ### shape look-ups: `position_of`, `contains`, `length_of`, `last_index_of`, `is_valid` -/
+
+/-- For a shape with unique names: `position_of` is the position of the name, `contains` says
+    whether it occurs, `length_of` is the length paired with it and `last_index_of` one less;
+    all are absent for a name the shape does not have. -/
+theorem dim_lookup (shape : Shape ν) (n : ν) (hnd : (shape.map (·.1)).Nodup) :
+    dimContains shape n = decide (n ∈ shape.map (·.1)) ∧
+    dimPositionOf shape n =
+      (if n ∈ shape.map (·.1) then some ((shape.map (·.1)).idxOf n) else none) ∧
+    (∀ l, dimLengthOf shape n = some l ↔ (n, l) ∈ shape) ∧
+    dimLastIndexOf shape n = (dimLengthOf shape n).map (· - 1) := by
+  refine ⟨?_, ?_, ?_, rfl⟩
+  · unfold dimContains
+    rw [Bool.eq_iff_iff]
+    simp [List.any_eq_true]
+  · unfold dimPositionOf
+    induction shape with
+    | nil => simp [findPos]
+    | cons d rest ih =>
+      have hnd' : d.1 ∉ rest.map (·.1) ∧ (rest.map (·.1)).Nodup :=
+        List.nodup_cons.1 (by rw [List.map_cons] at hnd; exact hnd)
+      simp only [findPos, List.map_cons, List.mem_cons, List.idxOf_cons]
+      by_cases h : d.1 = n
+      · simp [h]
+      · have hb : (d.1 == n) = false := by simp [h]
+        have h' : ¬ n = d.1 := fun e => h e.symm
+        rw [ih hnd'.2]
+        by_cases hm : n ∈ rest.map (·.1) <;> simp [h, h', hm, hb]
+  · intro l
+    unfold dimLengthOf
+    constructor
+    · intro h
+      cases hf : shape.find? (fun d => decide (d.1 = n)) with
+      | none => simp [hf] at h
+      | some d =>
+        simp only [hf, Option.map_some, Option.some.injEq] at h
+        have hmem := List.mem_of_find?_eq_some hf
+        have hp := List.find?_some hf
+        simp only [decide_eq_true_eq] at hp
+        cases d with
+        | mk a b => simp only at hp h; subst hp h; exact hmem
+    · intro h
+      have := find?_name_of_mem shape hnd (n, l) h
+      simp only at this
+      rw [this]; rfl
+
+/-- `InvalidShapeError::is_valid` ⇔ unique names and lengths ≥ 1 (the element count is not part
+    of it: `try_from` also returns the error for a valid shape with the wrong amount of data). -/
+theorem shapeIsValid_iff (shape : Shape ν) : shapeIsValid shape = true ↔ ValidShape shape := by
+  have h := validateDimensions_none_iff shape (elements shape)
+  unfold validateDimensions at h
+  simp only [ne_eq, not_true_eq_false, if_false, true_and] at h
+  unfold shapeIsValid ValidShape
+  rw [← h]
+  cases hasDuplicates (shape.map (·.1)) <;> cases shape.any (·.2 == 0) <;> simp
+
+example : dimLengthOf [("a", 2), ("b", 3)] "b" = some 3 ∧ dimLastIndexOf [("a", 2), ("b", 3)] "b" = some 2 ∧
+    dimPositionOf [("a", 2), ("b", 3)] "b" = some 1 ∧ dimLengthOf [("a", 2), ("b", 3)] "c" = none := by decide
 
 end EasyMl.C01
